@@ -25,11 +25,11 @@ REFS = {
     "tri2l": refs.ref_triangular, "tri2u": refs.ref_triangular, "tri3l": refs.ref_triangular, "tri3u": refs.ref_triangular,
     "addcond": refs.ref_addcond, "exp": refs.ref_exp, "expvec": refs.ref_exp, "softplus": refs.ref_softplus, "tanh": refs.ref_tanh,
     "leakytanh": refs.ref_leakytanh, "rqs1": refs.ref_rqs, "rqs1b": refs.ref_rqs, "rqs2": refs.ref_rqs, "rqs2b": refs.ref_rqs, "rqs3": refs.ref_rqs,
-    "planar2": refs.ref_planar(0.1), "planar1": refs.ref_planar(0.1), "planar2tanh": refs.ref_planar(None),
+    "planar2": refs.ref_planar(0.1), "planar1": refs.ref_planar(0.1), "planar2tanh": refs.ref_planar(None), "planar2s": refs.ref_planar(2.0),
     "flip3": refs.ref_flip, "flip22": refs.ref_flip, "identity": refs.ref_identity,
 }
 QUICK = ["affine2", "affine22", "affine0", "affine_bcast", "affine_bcast2", "loc", "scale", "tri2l", "tri2u", "addcond", "exp", "expvec", "softplus", "tanh",
-         "leakytanh", "rqs1", "rqs1b", "planar2", "planar2tanh", "flip3", "flip22", "identity"]
+         "leakytanh", "rqs1", "rqs1b", "planar2", "planar2s", "planar2tanh", "flip3", "flip22", "identity"]
 THOROUGH = QUICK + ["tri3l", "tri3u", "rqs2", "rqs2b", "rqs3", "planar1"]
 
 
@@ -130,10 +130,10 @@ def np_reference(spec_key, P, x, c):
         d = x.shape[0]
         w, u, b = p[:d], p[d:2 * d], p[2 * d]
         wtu = float(u @ w)
-        m_ = -1 + math.log(1 + math.log1p(math.exp(wtu)))
+        m_ = -1 / (2.0 if k == "planar2s" else 1.0) + math.log(1 + math.log1p(math.exp(wtu)))   # constraint for the steepest slope
         uh = u + (m_ - wtu) * w / float(w @ w)
         z = float(w @ x + b)
-        act = math.tanh(z) if k == "planar2tanh" else (z if z >= 0 else 0.1 * z)
+        act = math.tanh(z) if k == "planar2tanh" else (z if z >= 0 else (2.0 if k == "planar2s" else 0.1) * z)
         return x + uh * act
     if k.startswith("rqs"):
         xp, yp, d = named["x_pos"], named["y_pos"], named["derivatives"]
